@@ -1,2 +1,18 @@
 import BacVerif.Props.C08
+#print axioms BacVerif.C08.control_octet_layout
+#print axioms BacVerif.C08.npci_layout
+#print axioms BacVerif.C08.npci_roundtrip
+#print axioms BacVerif.C08.npci_refuses_version
+#print axioms BacVerif.C08.npci_refuses_source
+#print axioms BacVerif.C08.decode_only_decoding_errors
+#print axioms BacVerif.C08.decodeNpci_ext
+#print axioms BacVerif.C08.truncation_refused
+#print axioms BacVerif.C08.decode_wf
+#print axioms BacVerif.C08.reparse_stable
+#print axioms BacVerif.C08.nets_roundtrip
+#print axioms BacVerif.C08.rtes_roundtrip
+#print axioms BacVerif.C08.body_roundtrip
+#print axioms BacVerif.C08.table_256_refused
 #print axioms BacVerif.C08.registry_matches
+#print axioms BacVerif.C08.kindOfCode_some
+#print axioms BacVerif.C08.message_roundtrip
